@@ -147,10 +147,16 @@ def main(tier, replay=None):
             for c in r2.replays:
                 devcases.setdefault(B.case_key(c), []).append(c)
     if tier == "thorough":
-        for c in simulate_cases(gd, sd, cmds):
-            cases.setdefault(B.case_key(c[0]), c[0])
-            if c[1] is not None:
-                devcases.setdefault(B.case_key(c[0]), []).append(c[1])
+        sc, sdv, st2, tr2 = B.sampled_cases(
+            gd, "c13", 4, "RandomSubset(400, [1..4 -> [1..8 -> A13a \\cup {Lit, RtErr}]])",
+            "RandomSubset(6, PermsOf({1, 2, 3, 4}))",
+            '{ [dir |-> << 0, 0, 0, 0 >>, nm |-> << "a", "b", "c", "d" >>] }', "CmdTest", "Cwd0", 1, opendevs, cmds)
+        states += st2
+        trans += tr2
+        for k, c in sc.items():
+            cases.setdefault(k, c)
+        for k, v in sdv.items():
+            devcases.setdefault(k, []).extend(v)
     chosen = B.choose(cases, lambda k: nontrivial(cases[k]), budget, random.Random(sd))
     jobs = [(i, cases[k], devcases.get(k), ucg, base, sd) for i, k in enumerate(chosen)]
     cnt = {"verdict Pass": 0, "verdict Fail": 0, "build error": 0, "malformed assertion": 0, "error after assertions": 0,
@@ -234,40 +240,6 @@ def main(tier, replay=None):
                      "malformed assertions are rendered in forms the static checker lets through "
                      "(missing field, value through an identity function)"])
     return code
-
-
-def simulate_cases(gd, sd, cmds):
-    """thorough: larger runs (4 files, up to 8 assertions) sampled by TLC (RandomSubset)."""
-    out = []
-    for dev in (False, True):
-        devs = (B.open_deviations() & DEVS) if dev else set()
-        if dev and not devs:
-            break
-        name = "G_c13_sim_%s" % ("dev" if dev else "design")
-        with open(os.path.join(gd, "MCS_Build.tla"), "w") as f:
-            f.write("---- MODULE MCS_Build ----\nEXTENDS MC_Build, Randomization\n"
-                    "GenDevs == %s\n"
-                    "SimBodies == RandomSubset(400, [1..4 -> [1..8 -> A13a \\cup {Lit, RtErr}]])\n"
-                    "SimOrders == RandomSubset(6, PermsOf({1, 2, 3, 4}))\n"
-                    "LaySim == { [dir |-> << 0, 0, 0, 0 >>, nm |-> << \"a\", \"b\", \"c\", \"d\" >>] }\n====\n"
-                    % ("{" + ", ".join('"%s"' % d for d in sorted(devs)) + "}"))
-        with open(os.path.join(gd, name + ".cfg"), "w") as f:
-            f.write("CONSTANTS\n  Deviations <- GenDevs\n  NF = 4\n  Bodies <- SimBodies\n  Layouts <- LaySim\n"
-                    "  Cmds <- CmdTest\n  Cwds <- Cwd0\n  Orders <- SimOrders\n  Pres <- PreNone\n  Repeat = 1\n"
-                    "  EmitOn = TRUE\nINIT Init\nNEXT Next\nCHECK_DEADLOCK FALSE\nINVARIANTS %s\n"
-                    % (B.INVARIANTS if not dev else "Emit"))
-        r = C.run_tlc("MCS_Build", name, workers=6, gendir=gd, timeout=1500, heap="6g")
-        cmds.append(r.cmd)
-        if r.violation:
-            raise C.ToolError("Build.tla (simulation bodies): invariant %s violated\n%s" % (r.violation, r.errtext[:2000]))
-        C.require_tlc_ok(r, name)
-        if not dev:
-            out = [[c, None] for c in r.replays]
-        else:
-            bykey = {B.case_key(c): c for c in r.replays}
-            for pair in out:
-                pair[1] = bykey.get(B.case_key(pair[0]))
-    return out
 
 
 def do_replay(path, ucg, base, gd):
